@@ -1,11 +1,7 @@
 import PyAirtouch.Model.At5.FF13
 import PyAirtouch.Lemmas.Part3Text
 /-!
-# Length and round trip lemmas for the AirTouch 5 zone names codec
-
-FINDING reflected here: `ZoneNamesEncoder.size` is short by one byte per zone (`encode_length`), so a Zone
-Names Message never survives the send path's header (`size_roundtrip_fails`); with the true payload length in
-the header the round trip holds (`decode_encode_actual`).  Requests are not affected (`decode_encode`).
+# Length and round trip lemmas for the AirTouch 5 zone names codec (repaired `size`: two bytes per zone)
 -/
 namespace PyAirtouch.Lemmas.At5FF13
 open PyAirtouch.Model PyAirtouch.Model.At5.FF13 PyAirtouch.Lemmas.Part3Text
@@ -31,17 +27,10 @@ theorem flatMap_length (ns : List (Nat × Bytes)) :
       List.map_cons, List.sum_cons]
     omega
 
-/-- what the code does: the announced size is short by one byte per zone -/
-theorem encode_length (m : Msg) : (encode m).length = size m + zoneCount m := by
+theorem encode_length (m : Msg) : (encode m).length = size m := by
   cases m with
   | request r => rcases r with ⟨_ | n⟩ <;> rfl
-  | message m =>
-    simp only [encode, size, zoneCount, flatMap_length, sumNameLengths_eq]
-    omega
-
-/-- `size` and `encode` agree exactly when there is no zone entry (requests, empty mapping) -/
-theorem encode_length_iff (m : Msg) : (encode m).length = size m ↔ zoneCount m = 0 := by
-  rw [encode_length]; omega
+  | message m => simp only [encode, size, flatMap_length, sumNameLengths_eq]
 
 /-- on well-formed messages the real encoder raises nothing and produces `encode m` -/
 theorem encodeE_ok (m : Msg) (h : WF m) : encodeE m = .ok (encode m) := by
@@ -89,29 +78,14 @@ theorem decNames_encode (ns : List (Nat × Bytes)) :
     have := ih (acc ++ [(z, name)]) rest (by simpa using hnd) (fun q hq => hv q (by simp [hq]))
     simpa using this
 
-/-- requests: `decode(encode(m), header with message_length = size(m))` gives `m` back.  The hypothesis
-    `zoneCount m = 0` excludes every Zone Names Message (for those see `decode_encode_actual` and
-    `size_roundtrip_fails`) -/
-theorem decode_encode (m : Msg) (h : WF m) (hz : zoneCount m = 0) (rest : Bytes) :
-    decode (encode m ++ rest) (size m) = .ok (m, rest) := by
-  cases m with
-  | request r =>
-    rcases r with ⟨_ | n⟩
-    · simp [decode, encode, size]
-    · simp [decode, encode, size]
-  | message m =>
-    exfalso
-    have : m.zone_names.length ≠ 0 := by simpa using h.1
-    exact this hz
-
-/-- with the TRUE payload length in the header (what a correct `size` would announce) every well-formed
-    message and request survives the round trip -/
+/-- with the payload length in the header every well-formed message and request survives the round trip -/
 theorem decode_encode_actual (m : Msg) (h : WF m) (rest : Bytes) :
     decode (encode m ++ rest) (encode m).length = .ok (m, rest) := by
   cases m with
   | request r =>
-    have := decode_encode (.request r) h rfl rest
-    rwa [← (encode_length_iff (.request r)).mpr rfl] at this
+    rcases r with ⟨_ | n⟩
+    · simp [decode, encode]
+    · simp [decode, encode]
   | message m =>
     rcases m with ⟨ns⟩
     obtain ⟨hne, hnd, hwf⟩ := h
@@ -123,49 +97,22 @@ theorem decode_encode_actual (m : Msg) (h : WF m) (rest : Bytes) :
     rw [decNames_encode ns [] rest (by simpa using hnd) (fun p hp => (hwf p hp).2.2)]
     simp
 
-/-- a successful run of the loop consumes exactly `remaining` bytes of a buffer that has them -/
-theorem decNames_consumes (buf : Bytes) (remaining : Nat) (acc : List (Nat × Bytes)) :
-    ∀ d r, remaining ≤ buf.length → decNames buf remaining acc = .ok (d, r) →
-      r.length + remaining = buf.length := by
-  fun_induction decNames buf remaining acc with
-  | case1 buf acc => intro d r _ h; cases h; rfl
-  | case2 => intro d r _ h; cases h
-  | case3 => intro d r _ h; cases h
-  | case4 => intro d r _ h; cases h
-  | case5 remaining acc hrem zone n tl hfit name hv ih =>
-    intro d r hle h
-    simp only [List.length_cons] at hle
-    have := ih d r (by simp only [List.length_drop]; omega) h
-    simp only [List.length_drop, List.length_cons] at this ⊢
-    omega
-  | case6 => intro d r _ h; cases h
+/-- `decode(encode(m), header with message_length = size(m))` gives `m` back, nothing left over -/
+theorem decode_encode (m : Msg) (h : WF m) (rest : Bytes) :
+    decode (encode m ++ rest) (size m) = .ok (m, rest) := by
+  rw [← encode_length m]
+  exact decode_encode_actual m h rest
 
-/-- FINDING: with the header the send path builds (`message_length = size(m)`) no Zone Names Message with at
-    least one zone comes back: the decoder raises, or returns something else, or leaves bytes over -/
-theorem size_roundtrip_fails (ns : List (Nat × Bytes)) (hne : ns ≠ []) (rest : Bytes) :
-    decode (encode (.message ⟨ns⟩) ++ rest) (size (.message ⟨ns⟩)) ≠ .ok (.message ⟨ns⟩, rest) := by
-  have hlen : ns.length ≠ 0 := by simpa using hne
-  have hl := flatMap_length ns
-  intro h
-  simp only [decode, encode, size, sumNameLengths_eq] at h
-  split at h
-  · omega
-  · split at h
-    · split at h <;> cases h
-    · split at h
-      · cases h
-      · rename_i d r heq
-        have hc := decNames_consumes _ _ _ d r (by simp only [List.length_append]; omega) heq
-        simp only [List.length_append] at hc
-        injection h with h
-        injection h with _ hr
-        subst hr
-        omega
+theorem wfBool_iff (m : Msg) : wfBool m = true ↔ WF m := by
+  cases m with
+  | request r => rcases r with ⟨_ | n⟩ <;> simp [wfBool, WF]
+  | message m =>
+    simp only [wfBool, WF, Bool.and_eq_true, nodupBool_iff, List.all_eq_true, decide_eq_true_eq,
+      Bool.not_eq_true', List.isEmpty_eq_false_iff, ne_eq, and_assoc]
 
-/-- the smallest instance: `{0: "A"}` is announced as 2 bytes, sent as `00 01 41`, and rejected -/
-example : size (.message ⟨[(0, [0x41])]⟩) = 2 ∧ encode (.message ⟨[(0, [0x41])]⟩) = [0, 1, 0x41] ∧
-    decode [0, 1, 0x41] 2 = .error .decodeError := by
-  refine ⟨by decide, by decide, ?_⟩
-  simp [decode, decNames]
+/-- the case excluded by `WF`: an empty mapping is sent with no content, which is the "ALL" request -/
+theorem empty_mapping_not_preserved (rest : Bytes) :
+    decode (encode (.message ⟨[]⟩) ++ rest) (size (.message ⟨[]⟩)) = .ok (.request ⟨none⟩, rest) := by
+  simp [decode, encode, size, sumNameLengths]
 
 end PyAirtouch.Lemmas.At5FF13
